@@ -51,6 +51,15 @@ pub fn check_sim(property: &str, sim: &mut Sim, c: usize, view: &ClientView) -> 
             // While the pre-spawned entity exists, it is the one and only client entity for
             // the server entity.
             Some(m) if pre_alive => {
+                // A mapping registered for an entity the client already knew through a
+                // placeholder binds only once its update message has been applied.
+                let pending = sim
+                    .late_map_tick
+                    .get(&(c, slot))
+                    .is_some_and(|t| t.is_none_or(|t| tick_older(view.update_tick, t)));
+                if pending {
+                    continue;
+                }
                 if m != pre {
                     return Err(v(
                         "not-adopted",
@@ -150,6 +159,20 @@ pub fn cells(tier: Tier) -> Vec<CellPlan> {
     c.oracles = Oracles { c16: true, c01: true, ..Default::default() };
     c.rounds = if q { 3 } else { 4 };
     v.push(plan(c, if q { 1 } else { 1 }, 2.0));
+
+    // A mapped reference to a still-hidden entity reaches the client first (it creates a
+    // placeholder for the target); then the client pre-spawns, the mapping is registered and
+    // the entity becomes visible: the mapping must win over the placeholder. Only the adoption
+    // oracle applies (a reference to a hidden entity is outside the convergence property).
+    let mut c = cells::base("placeholder-then-map", "C16");
+    c.cfg.vis = Vis::Whitelist;
+    c.cfg.with_r = true;
+    c.init = vec![Op::Spawn(0, cells::M_A), Op::Vis(0, 0, true), Op::Spawn(1, cells::M_A)];
+    c.alphabet = vec![Op::Nop, Op::InsRef(0, 1), Op::MapLate(0, 1), Op::Vis(0, 1, true), Op::Mut(1, TA), Op::Mut(0, TA)];
+    c.env = Env { hold_acks: false, hold_updates: 1, mutations: MutMenu::Hold, leftover_choice: false, lossy: false };
+    c.oracles = Oracles { c16: true, ..Default::default() };
+    c.rounds = if q { 3 } else { 4 };
+    v.push(plan(c, 1, 1.0));
 
     // Custom authorization: the game fills the entity map of a connected client before it
     // authorizes it (the flow the documentation of the map describes).
